@@ -9,6 +9,11 @@ faces, orientation from the exact centroid) on the double-valued query point and
  points in between are not judged (counted).
 Oracle for evaluation: the located cell's local expansion evaluated through elem.gbasis at the pulled-back
 point with own scatter; probes at the basis' own quadrature points against interpolate().
+Memory layouts (family query-layouts): blocks of pairwise distinct points (d, n1, ..., nk), pairwise different extents, in
+every memory layout of the same array (C / Fortran order, transposed and axis-permuted views, strided slices, negative
+strides, broadcast views, swapped byte order, read-only, unaligned) for every ndim the entry point offers: the answer belongs
+to the point by index.  References: the local expansion on the cell the point was generated in (no finder involved) and the
+interpolator asked for one point at a time; for the quadrature block interpolate().
 """
 from __future__ import annotations
 
@@ -28,7 +33,11 @@ RULE = ("random first-order meshes with convex cells (segments, triangles, quadr
         "classes (all vertices, midpoints of interior/boundary facets and edges, random interior points, points in holes, "
         "points outside the bounding box) x registry elements (scalar, vector, tensor valued); distinct key = (mesh class, "
         "point class, element record, outcome); non-trivial iff the point is not a centroid-nearest trivial hit "
-        "(on a facet/vertex shared by >= 2 cells, or the finder's exhaustive fallback ran, or the point is outside)")
+        "(on a facet/vertex shared by >= 2 cells, or the finder's exhaustive fallback ran, or the point is outside); "
+        "query-layouts: blocks of distinct points with pairwise different trailing extents (ndim 2..5) x memory layouts of "
+        "the query array (C, Fortran, transposed / axis-permuted views, strided, negative strides, broadcast, swapped byte "
+        "order, read-only, unaligned) x interpolator / probes / finder / point_source, judged by index; distinct key = "
+        "(mesh class, layout, ndim)")
 TRACK = ["skfem.mesh.mesh_tri_1:MeshTri1.element_finder", "skfem.mesh.mesh_tet_1:MeshTet1.element_finder",
          "skfem.mesh.mesh_line_1:MeshLine1.element_finder", "skfem.mesh.mesh_quad_1:MeshQuad1.element_finder",
          "skfem.mesh.mesh_hex_1:MeshHex1.element_finder", "skfem.mesh.mesh_wedge_1:MeshWedge1.element_finder",
@@ -36,12 +45,18 @@ TRACK = ["skfem.mesh.mesh_tri_1:MeshTri1.element_finder", "skfem.mesh.mesh_tet_1
          "skfem.assembly.basis.cell_basis:CellBasis.point_source"]
 REQUIRED_MONITORS = ["inside-point-is-located", "located-cell-contains-point", "outside-point-raises",
                      "probes-equal-local-expansion", "probes-at-quadrature-equal-interpolate", "point-source-row",
-                     "interpolator-shapes", "repeated-permuted-points", "one-point-at-a-time"]
+                     "interpolator-shapes", "repeated-permuted-points", "one-point-at-a-time", "query-layout-by-index",
+                     "finder-layout-by-index"]
 REQUIRED_REACH = ["point:vertex", "point:facet", "point:interior", "point:hole", "point:outside-box",
                   "finder-fallback-search-all", "vector-valued-element", "tensor-valued-element", "coefficient-dtypes",
                   "single-point-sequence", "query-array-updated-in-place", "more-than-2^14-points", "offset-along-one-axis",
                   "restricted-basis-probed", "batch-with-one-outside-point", "global-element-probed",
-                  "query-array-forms", "points-on-simplex-split-loci"]
+                  "query-array-forms", "points-on-simplex-split-loci",
+                  "layout-ndim:2", "layout-ndim:3", "layout-ndim:4", "layout-ndim:5", "layout:fortran-order-with-trailing-axes",
+                  "layout:fortran-contiguous", "layout:transposed-view", "layout:component-axis-last-in-memory",
+                  "layout:axes-permuted-in-memory", "layout:strided-slice", "layout:negative-strides", "layout:broadcast-view",
+                  "layout:non-native-byte-order", "layout:unaligned", "fortran-order-permutation-would-be-noticed",
+                  "finder-accepts-shaped-coordinates", "point-source-layouts", "quadrature-block-layouts"]
 
 F = Fraction
 
@@ -634,6 +649,271 @@ def probes_many(ctx, k):
     ctx.nontrivial(rec.name, "many-points", bool(tshape))
 
 
+# ------------------------------------------------------------------ memory layouts of the query array
+def layout_variants(rng, xc):
+    """The block of points xc, shape (d, n1, ..., nk), in the memory layouts a caller may hold it in.  Returns a list of
+    (name, array, pick): the array equals xc entry by entry if pick is None; for pick == (axis, j) it is the broadcast
+    view (stride zero) that repeats the entries j of the trailing axis `axis` along that axis."""
+    S, nd = xc.shape, xc.ndim
+    out = []
+
+    def add(name, a, pick=None):
+        out.append((name, a, pick))
+
+    add("c-contiguous", np.array(xc, order="C"))
+    add("fortran-contiguous", np.array(xc, order="F"))
+    add("transposed-view", np.ascontiguousarray(xc.T).T)          # the .T of an array stored (nk, ..., n1, d)
+    if nd >= 3:
+        # stored point by point, shape (n1, ..., nk, d), the component axis moved to the front: neither C nor F order
+        add("component-axis-last-in-memory", np.moveaxis(np.ascontiguousarray(np.moveaxis(xc, 0, -1)), -1, 0))
+        perm = rng.permutation(nd)
+        add("axes-permuted-in-memory", np.ascontiguousarray(xc.transpose(perm)).transpose(np.argsort(perm)))
+    for name, order in (("strided-slice", "C"), ("strided-slice-of-fortran-array", "F")):
+        step = rng.integers(1, 4, size=nd)
+        if (step == 1).all():
+            step[int(rng.integers(nd))] = 2
+        off = rng.integers(0, 3, size=nd)
+        big = np.full([int(off[i] + step[i] * S[i] + rng.integers(0, 2)) for i in range(nd)], np.nan, order=order)
+        sl = tuple(slice(int(off[i]), int(off[i] + step[i] * S[i]), int(step[i])) for i in range(nd))
+        big[sl] = xc
+        add(name, big[sl])
+    for name, order in (("negative-strides", "C"), ("negative-strides-of-fortran-array", "F")):
+        ax = tuple(i for i in range(nd) if rng.random() < 0.6) or (nd - 1,)
+        add(name, np.flip(np.array(np.flip(xc, ax), order=order), ax))
+    cand = [a for a in range(1, nd) if S[a] > 1]
+    if cand:
+        a = int(cand[int(rng.integers(len(cand)))])
+        j = int(rng.integers(S[a]))
+        add("broadcast-view", np.broadcast_to(np.take(xc, [j], axis=a), S), (a, j))
+    swapped = xc.dtype.newbyteorder("S")
+    add("non-native-byte-order", xc.astype(swapped))
+    add("non-native-byte-order-fortran", np.asfortranarray(xc.astype(swapped)))
+    ro = np.array(xc, order="F")
+    ro.setflags(write=False)
+    add("read-only-fortran", ro)
+    buf = np.empty(xc.nbytes + 1, dtype=np.uint8)
+    un = buf[1:].view(xc.dtype).reshape(S)
+    un[...] = xc
+    add("unaligned", un)
+    return out
+
+
+def point_variants(rng, x1):
+    """One point, shape (d,), in the forms a caller may hold it in."""
+    d = x1.shape[0]
+    out = [("contiguous", np.array(x1))]
+    big = np.full((d + 1, 3), np.nan)
+    big[:d, 1] = x1
+    out.append(("column-of-a-c-array", big[:d, 1]))
+    out.append(("negative-stride", np.flip(np.array(np.flip(x1)))))
+    out.append(("non-native-byte-order", x1.astype(x1.dtype.newbyteorder("S"))))
+    ro = np.array(x1)
+    ro.setflags(write=False)
+    out.append(("read-only", ro))
+    return out
+
+
+LAYOUT_KINDS = ("line", "tri", "quad", "tet", "hex", "wedge")
+
+
+def layouts_case(ctx, k):
+    """Blocks of pairwise distinct points, shape (d, n1, ..., nk) with pairwise different extents, handed to the
+    interpolator (every ndim), the probing matrix, the finder and the point source in every memory layout: the answer
+    belongs to the point *by index* - out[i, j, ...] is the value at x[:, i, j, ...] - whatever the strides, the
+    contiguity flags, the byte order of the array.  References: the local expansion of the cell the point was generated
+    in (own scatter, no finder), and the interpolator asked for one point at a time."""
+    import skfem
+    rng = ctx.rng()
+    kind = LAYOUT_KINDS[k % len(LAYOUT_KINDS)]
+    j = k // len(LAYOUT_KINDS)
+    recs = [r for r in EL.all_for_kind(kind, wrappers=True) if not r.skeleton and not r.name.startswith("Composite(")
+            and r.mesh_req == "any"]
+    scal = [r for r in recs if r.family == "h1"]
+    other = [r for r in recs if r.family != "h1"]
+    pool_r = other if (j % 3 == 2 and other) else scal          # trailing axes exist for scalar elements only
+    rec = pool_r[int(rng.integers(len(pool_r)))]
+    mc = gen_mesh(ctx, rng, kind, int(rng.integers(0, 20)))
+    if kind == "hex" and not mc.planar_faces:
+        mc = G.hex_mesh(ctx.rng("planar"), style="tensor")
+    mesh = mc.mesh
+    basis = skfem.CellBasis(mesh, rec.make())
+    y = rng.standard_normal(basis.N)
+    P, T = np.asarray(mesh.p), np.asarray(mesh.t)
+    nt, d = T.shape[1], P.shape[0]
+    f = basis.interpolator(y)
+    finder = mesh.element_finder()
+    base = rec.name.split("(")[0]
+    hmin = float((P[:, T].max(axis=1) - P[:, T].min(axis=1)).max(axis=0).min())
+    rt = 1e-9 + 256 * 2.3e-16 * float(np.abs(P).max()) / hmin * max(1, getattr(rec.make(), "maxdeg", 1))
+    pool = [2, 3, 4, 5, 7] if not ctx.thorough else [2, 3, 4, 5, 7, 9, 11]
+    ndims = [2, 3, 4] + ([5] if (ctx.thorough or j % 2 == 0) else [])
+    xflat2 = None
+    for nd in ndims:
+        if nd == 2:
+            ext = (int(rng.choice([1, 2, 6, 13, 29])),)
+        else:
+            ext = [int(e) for e in rng.choice(pool[:4] if nd >= 5 else pool, size=nd - 1, replace=False)]
+            if rng.random() < 0.25:
+                ext[int(rng.integers(len(ext)))] = 1         # an axis of extent one: the contiguity flags are ambiguous
+            ext = tuple(ext)
+        npts = int(np.prod(ext))
+        cells0 = rng.integers(0, nt, size=npts)
+        Xr = GEO.random_ref_points(rng, kind, npts)                                          # strictly inside, 1% margin
+        xflat = np.ascontiguousarray(GEO.map_points(kind, P, T, Xr[:, :, None], cells0)[:, :, 0])   # (d, npts), distinct
+        if nd == 2:
+            xflat2 = xflat
+        xc = xflat.reshape((d,) + ext)
+        ref_flat = np.asarray(own_evaluate(basis, rec, cells0, xflat, y))                   # tshape + (npts,)
+        tshape = ref_flat.shape[:-1]
+        ncomp = int(np.prod(tshape)) if tshape else 1
+        if nd == 2:
+            ref2 = ref_flat
+        ref = ref_flat.reshape(tshape + ext)
+        scale = float(np.abs(ref).max()) + float(np.abs(y).max()) * 1e-3
+        tag = dict(elem=rec.name, mesh=type(mesh).__name__, desc=mc.desc, ndim=nd, extents=list(ext))
+        # the interpolator asked for one point at a time (a second execution the property says must agree)
+        idxs = np.arange(npts) if npts <= 40 else np.sort(rng.choice(npts, size=40, replace=False))
+        one = np.full(tshape + (npts,), np.nan)
+        for jj in idxs:
+            one[..., jj] = np.asarray(f(xflat[:, jj:jj + 1].copy()))[..., 0]
+        ctx.close("one-point-at-a-time", one[..., idxs], ref_flat[..., idxs], rtol=rt, scale=scale,
+                  mech=f"interpolator-single-point:{base}", **tag)
+        one = one.reshape(tshape + ext)
+        # would the permutation "enumerated in Fortran order, folded back in C order" change the answer visibly?
+        if nd >= 3 and not tshape and min(ext) > 1:
+            if float(np.abs(ref.ravel(order="F").reshape(ext) - ref).max()) > 1e3 * rt * scale:
+                ctx.reached("fortran-order-permutation-would-be-noticed")
+        ctx.reached(f"layout-ndim:{nd}")
+
+        # Forms the library does not offer at all (trailing axes for the finder of 2-D/3-D meshes, for the probing matrix,
+        # for tensor-valued elements) are recognised on the C-contiguous array, the first variant: if the call raises there
+        # (or answers with another shape) the form is not judged in the other layouts; if it answers there, the same points
+        # in any other memory layout must be answered too, with the same values at the same indices.
+        offered = {}
+
+        def attempt(what, optional, name, call, monitor, vtag):
+            if optional and offered.get(what) is False:
+                ctx.drop(what + "-does-not-offer-trailing-axes")
+                return None
+            try:
+                val = call()
+            except Exception as e:
+                if optional and name == "c-contiguous":
+                    offered[what] = False
+                    ctx.tolerated(monitor)
+                    ctx.drop(what + "-does-not-offer-trailing-axes")
+                else:
+                    ctx.check(monitor, False, mech=f"{what}-rejects-query-layout:{name}", error=repr(e)[:200], **vtag)
+                return None
+            if name == "c-contiguous":
+                offered[what] = True
+            return val
+
+        for name, xv, pick in layout_variants(rng, xc):
+            def sel(r, lead, pick=pick):
+                """the reference (lead + ext) at the points of this variant"""
+                if pick is None:
+                    return r
+                return np.broadcast_to(np.take(r, [pick[1]], axis=lead + pick[0] - 1), r.shape)
+            if xv.shape != xc.shape or not np.array_equal(xv, sel(xc, 1)):
+                raise RuntimeError("harness: layout variant %s does not hold the intended points" % name)
+            want = sel(ref, len(tshape))
+            vtag = dict(tag, layout=name, c_contiguous=bool(xv.flags.c_contiguous), f_contiguous=bool(xv.flags.f_contiguous),
+                        strides=list(xv.strides), dtype=str(xv.dtype))
+            ctx.reached("layout:" + name)
+            if nd >= 3 and xv.flags.f_contiguous and not xv.flags.c_contiguous:
+                ctx.reached("layout:fortran-order-with-trailing-axes")
+            first = name == "c-contiguous"
+            # ---- interpolator
+            v = attempt("interpolator", bool(tshape) and nd >= 3, name, lambda: np.asarray(f(xv)), "query-layout-by-index", vtag)
+            if v is not None:
+                okshape = v.shape == tshape + ext
+                ctx.check("interpolator-shapes", okshape, mech=f"interpolator-shape-for-query-layout:{name}", shape=v.shape,
+                          want=tshape + ext, **vtag)
+                if okshape:
+                    ctx.close("query-layout-by-index", v, want, rtol=rt, scale=scale, mech=f"interpolator-query-layout:{name}", **vtag)
+                    onev = sel(one, len(tshape))
+                    msk = ~np.isnan(onev)
+                    ctx.close("query-layout-by-index", v[msk], onev[msk], rtol=rt, scale=scale,
+                              mech=f"interpolator-query-layout-vs-single-points:{name}", **vtag)
+                    ctx.nontrivial("layout", kind, name, nd)
+            # ---- finder: rows of the array (strided, reversed, byte-swapped 1-D views); shaped coordinates where offered
+            wantc = sel(cells0.reshape(ext), 0)
+            cl = attempt("finder", nd >= 3, name, lambda: np.asarray(finder(*xv)), "finder-layout-by-index", vtag)
+            if cl is not None:
+                if cl.shape == ext:
+                    ctx.check("finder-layout-by-index", np.array_equal(cl, wantc),
+                              mech=f"finder-query-layout:{name}" if nd == 2 else f"finder-shaped-coordinates:{name}",
+                              got=cl, generated_in=wantc, **vtag)
+                    if nd >= 3:
+                        ctx.reached("finder-accepts-shaped-coordinates")
+                elif nd == 2 or not first:
+                    ctx.check("finder-layout-by-index", False, mech=f"finder-result-shape:{name}", shape=cl.shape, **vtag)
+                else:
+                    offered["finder"] = False
+                    ctx.drop("finder-shaped-coordinates-answer-of-other-shape")
+            # ---- probing matrix
+            Pv = attempt("probes", nd >= 3, name, lambda: basis.probes(xv), "query-layout-by-index", vtag)
+            if Pv is not None:
+                if Pv.shape == (ncomp * npts, basis.N):
+                    ctx.close("query-layout-by-index", np.asarray(Pv @ y).reshape(tshape + ext), want, rtol=rt, scale=scale,
+                              mech=f"probes-query-layout:{name}", **vtag)
+                elif nd == 2 or not first:
+                    ctx.check("interpolator-shapes", False, mech=f"probes-shape-for-query-layout:{name}", shape=Pv.shape, **vtag)
+                else:
+                    offered["probes"] = False
+                    ctx.drop("probes-trailing-axes-matrix-of-other-shape")
+    # ---- the basis' own quadrature points as the block (d, cells, points per cell) they come in: interpolate(), by index
+    gx = np.asarray(basis.global_coordinates())                                           # (d, nt, nq)
+    nq = gx.shape[2]
+    ns = min(nt, 6 if nq != 6 else 5)
+    sub = np.sort(rng.choice(nt, size=ns, replace=False))
+    uq = np.asarray(basis.interpolate(y))[..., sub, :]                                    # tshape + (ns, nq)
+    xq = np.ascontiguousarray(gx[:, sub, :])
+    if tshape:                                                                             # no trailing axes for these
+        xq = xq.reshape(d, -1)
+        uq = uq.reshape(tshape + (-1,))
+    qtag = dict(elem=rec.name, mesh=type(mesh).__name__, desc=mc.desc, block=list(xq.shape))
+    for name, xv, pick in layout_variants(rng, xq):
+        wantq = uq if pick is None else np.broadcast_to(np.take(uq, [pick[1]], axis=len(tshape) + pick[0] - 1), uq.shape)
+        try:
+            vq = np.asarray(f(xv))
+        except Exception as e:
+            ctx.check("probes-at-quadrature-equal-interpolate", False,
+                      mech="finder-rejects-points-within-rounding-of-a-facet" if "outside of the mesh" in str(e)
+                      else f"interpolator-rejects-query-layout:{name}", error=repr(e)[:200], layout=name, **qtag)
+            continue
+        if ctx.check("interpolator-shapes", vq.shape == uq.shape, mech=f"interpolator-shape-for-query-layout:{name}",
+                     shape=vq.shape, want=uq.shape, layout=name, **qtag):
+            ctx.close("probes-at-quadrature-equal-interpolate", vq, wantq, rtol=max(1e-8, 10 * rt),
+                      scale=float(np.abs(uq).max()) + float(np.abs(y).max()) * 1e-3,
+                      mech=f"interpolator-at-quadrature-points-query-layout:{name}", layout=name,
+                      c_contiguous=bool(xv.flags.c_contiguous), f_contiguous=bool(xv.flags.f_contiguous), **qtag)
+    ctx.reached("quadrature-block-layouts")
+    # ---- point source: the one point in the forms a caller may hold it in
+    jp = int(rng.integers(xflat2.shape[1]))
+    want0 = ref2.reshape(-1, xflat2.shape[1])[0, jp]                  # the first component at that point
+    row = None
+    for name, xp in point_variants(rng, xflat2[:, jp]):
+        ptag = dict(elem=rec.name, mesh=type(mesh).__name__, desc=mc.desc, layout=name)
+        try:
+            ps = np.asarray(basis.point_source(xp))
+        except Exception as e:
+            ctx.check("point-source-row", False, mech=f"point-source-rejects-query-layout:{name}", error=repr(e)[:200], **ptag)
+            continue
+        ctx.check("interpolator-shapes", ps.shape == (basis.N,), mech=f"point-source-shape:{name}", shape=ps.shape, **ptag)
+        sc = float(np.abs(y).max()) * float(np.abs(ps).max()) + 1e-300
+        ctx.close("point-source-row", float(ps @ y), float(want0), rtol=rt * max(1, np.count_nonzero(ps)), scale=sc + abs(float(want0)),
+                  mech=f"point-source-query-layout:{name}", **ptag)
+        if row is None:
+            row = ps
+        else:
+            ctx.close("point-source-row", ps, row, rtol=rt, scale=float(np.abs(row).max()) + 1e-300,
+                      mech=f"point-source-depends-on-query-layout:{name}", **ptag)
+    ctx.reached("point-source-layouts")
+    ctx.sample(dict(elem=rec.name, mesh=type(mesh).__name__, ndims=ndims), per_family=1)
+
+
 def fam(fn, kind):
     return lambda ctx, k: fn(ctx, k, kind)
 
@@ -646,3 +926,4 @@ for kd in ("line", "tri", "quad", "tet", "hex", "wedge"):
                                   and not r.name.startswith("Composite(")]) * (2 if ctx.tier == "quick" else 30))
     FAMILIES.append(Family("probes-" + kd, fam(probes_case, kd), n, n, budget={"quick": 30, "thorough": 600}))
 FAMILIES.append(Family("probes-many", probes_many, 4, 32, budget={"quick": 40, "thorough": 300}))
+FAMILIES.append(Family("query-layouts", layouts_case, 30, 720, budget={"quick": 45, "thorough": 600}))
